@@ -290,6 +290,25 @@ double Interpolation::Integrate(double x_1, double x_2)
 	return sign * integral;
 }
 
+// Stationary points of the cubic a*dx^3 + b*dx^2 + c*dx + d (dx = x - x_j) strictly inside (lo,hi).
+static std::vector<double> Stationary_Points(double a, double b, double c, double x_j, double lo, double hi)
+{
+	std::vector<double> points;
+	double discriminant = b * b - 3.0 * a * c;
+	if(a != 0.0 && discriminant >= 0.0)
+	{
+		points.push_back(x_j + (-b - sqrt(discriminant)) / (3.0 * a));
+		points.push_back(x_j + (-b + sqrt(discriminant)) / (3.0 * a));
+	}
+	else if(a == 0.0 && b != 0.0)
+		points.push_back(x_j - c / (2.0 * b));
+	std::vector<double> inside;
+	for(double x : points)
+		if(x > lo && x < hi)
+			inside.push_back(x);
+	return inside;
+}
+
 double Interpolation::Local_Minimum(double x_1, double x_2)
 {
 	libphysica::Check_For_Error(x_2 < x_1, "Interpolation::Local_Minimum()", "Faulty order of arguments.");
@@ -302,6 +321,13 @@ double Interpolation::Local_Minimum(double x_1, double x_2)
 	for(unsigned int i = i_1; i <= i_2 + 1 && i < N; i++)
 		if(x_values[i] >= x_1 && x_values[i] <= x_2)
 			min_entry = std::min(min_entry, prefactor * function_values[i]);
+	// In the extrapolation zones the first/last cubic is continued beyond the table and need not be monotone there.
+	if(x_1 < x_values[0])
+		for(double x_s : Stationary_Points(a[0], b[0], c[0], x_values[0], x_1, std::min(x_2, x_values[0])))
+			min_entry = std::min(min_entry, Interpolate(x_s));
+	if(x_2 > x_values[N - 1])
+		for(double x_s : Stationary_Points(a[N - 2], b[N - 2], c[N - 2], x_values[N - 2], std::max(x_1, x_values[N - 1]), x_2))
+			min_entry = std::min(min_entry, Interpolate(x_s));
 	return min_entry;
 }
 
@@ -317,6 +343,13 @@ double Interpolation::Local_Maximum(double x_1, double x_2)
 	for(unsigned int i = i_1; i <= i_2 + 1 && i < N; i++)
 		if(x_values[i] >= x_1 && x_values[i] <= x_2)
 			max_entry = std::max(max_entry, prefactor * function_values[i]);
+	// In the extrapolation zones the first/last cubic is continued beyond the table and need not be monotone there.
+	if(x_1 < x_values[0])
+		for(double x_s : Stationary_Points(a[0], b[0], c[0], x_values[0], x_1, std::min(x_2, x_values[0])))
+			max_entry = std::max(max_entry, Interpolate(x_s));
+	if(x_2 > x_values[N - 1])
+		for(double x_s : Stationary_Points(a[N - 2], b[N - 2], c[N - 2], x_values[N - 2], std::max(x_1, x_values[N - 1]), x_2))
+			max_entry = std::max(max_entry, Interpolate(x_s));
 	return max_entry;
 }
 
